@@ -989,6 +989,23 @@ def f_spec_lookup_empty_code(a):
     return "OK" if not out else "; ".join(out)
 
 
+def f_spec_unlisted_pair(a):
+    """a (country, bank code) pair that no bundled entry carries is refused by both lookups with the library's own error -
+    also when it differs from a listed code only by leading zeros"""
+    cc, code = dec(a[0]), dec(a[1])
+    out = []
+    for name, f in (("from_bank_code", lambda: str(BIC.from_bank_code(cc, code))),
+                    ("candidates_from_bank_code", lambda: [str(x) for x in BIC.candidates_from_bank_code(cc, code)])):
+        try:
+            r = f()
+            out.append(f"{name} FOUND {r!r}"[:120])
+        except exceptions.InvalidBankCode:
+            pass
+        except Exception as e:  # noqa: BLE001
+            out.append(f"{name} RAISED {type(e).__name__}")
+    return "OK" if not out else "; ".join(out)
+
+
 def f_touch_all(a):
     """read every public attribute of an (unvalidated) object - properties must be read-only in effect; result: their
     values, so that the call can be compared with itself in other circumstances"""
